@@ -168,6 +168,7 @@ func checkC15(p *Program, r *Report) {
 	c15Lists(p, r)
 	c15ActionResults(p, r)
 	c15SourceAsGiven(p, r)
+	c15ExitOnCurrent(p, r)
 	c15Identifiers(p, r, sm)
 }
 
@@ -1535,4 +1536,90 @@ func c15SourceAsGiven(p *Program, r *Report) {
 		}
 	}
 	r.Floor("C15.R14", n, 1)
+}
+
+// c15ExitOnCurrent (R15): a scanner loop that advances the cursor and stops on a character (end of line, a quote) decides on
+// the character under the cursor when it leaves: between the peek whose value the exit test examines and the test, the cursor is
+// not moved. A loop that reads a character, advances, and then tests what it read has consumed the character it stops on: a
+// line comment then swallows the newline that terminates the statement before it.
+func c15ExitOnCurrent(p *Program, r *Report) {
+	sm, err := buildScanModel(p)
+	if err != nil {
+		return
+	}
+	n := 0
+	for _, fn := range sm.methods {
+		perFn := 0
+		for _, l := range loopsOf(fn) {
+			advances := false
+			for b := range l.Body {
+				for _, in := range b.Instrs {
+					if c, ok := in.(*ssa.Call); ok && sm.step[staticCallee(c)] > 0 {
+						advances = true
+					}
+				}
+			}
+			if !advances {
+				continue
+			}
+			for _, b := range fn.Blocks {
+				if !l.Body[b] {
+					continue
+				}
+				iff, ok := b.Instrs[len(b.Instrs)-1].(*ssa.If)
+				if !ok || (l.Body[b.Succs[0]] && l.Body[b.Succs[1]]) {
+					continue
+				}
+				// the peeks the condition depends on
+				var peeks []*ssa.Call
+				seen := map[ssa.Value]bool{}
+				var walk func(v ssa.Value, d int)
+				walk = func(v ssa.Value, d int) {
+					if v == nil || seen[v] || d > 6 {
+						return
+					}
+					seen[v] = true
+					switch x := v.(type) {
+					case *ssa.Call:
+						if sm.peekLike[staticCallee(x)] {
+							peeks = append(peeks, x)
+							return
+						}
+						for _, a := range x.Call.Args {
+							walk(a, d+1)
+						}
+					case *ssa.BinOp:
+						walk(x.X, d+1)
+						walk(x.Y, d+1)
+					case *ssa.UnOp:
+						walk(x.X, d+1)
+					case *ssa.Phi:
+						for _, e := range x.Edges {
+							walk(e, d+1)
+						}
+					}
+				}
+				walk(iff.Cond, 0)
+				if len(peeks) == 0 {
+					continue
+				}
+				perFn++
+				n++
+				bad := ""
+				for _, pk := range peeks {
+					// a cursor move between the peek and the test
+					if pk.Block() == b {
+						for i := instrIndex(pk) + 1; i < len(b.Instrs); i++ {
+							if c, ok := b.Instrs[i].(*ssa.Call); ok && sm.step[staticCallee(c)] != 0 {
+								bad = "the cursor is moved at " + p.Pos(c.Pos()) + " between reading the character and testing it"
+							}
+						}
+					}
+				}
+				r.Check(bad == "", "C15.R15", fmt.Sprintf("%s|loop exit #%d decides on the character under the cursor", funcName(fn), perFn), p.Pos(iff.Cond.Pos()), "no cursor move between the peek and the exit test",
+					bad+": the loop leaves having consumed the character it stops on (a line comment swallows the newline that ends the statement before it, so two texts that parse alone do not parse when joined)")
+			}
+		}
+	}
+	r.Floor("C15.R15", n, 4)
 }
